@@ -21,6 +21,8 @@
    Results: [Ok], or [Fault] where the C would index outside an array or call abort(), or
    [NoFuel] for an exhausted loop bound.  Theorems show neither happens. *)
 From Coq Require Import ZArith List Bool.
+From Tickit Require Gen_Width Utf8Defs Utf8Spec.
+From Tickit Require Gen_Colours PenDefs PenSpec PenProofs.
 From Tickit Require Import RectDefs.
 Import ListNotations.
 Local Open Scope Z_scope.
@@ -41,58 +43,66 @@ Notation "'do2' ( x , y ) <- r ; k" := (bind r (fun xy => let '(x, y) := xy in k
   (at level 200, x name, y name, r at level 100, k at level 200, right associativity).
 
 (* ---------------------------------------------------------------------------------- *)
-(* pens (pen.c: tickit_pen_copy, tickit_pen_equiv restricted to four attributes) *)
+(* pens.  A pen is the partial map  attribute -> value  that property C19 (PenSpec.lookup)
+   assigns to a TickitPen: all ten attributes, colours with their optional RGB8 secondary.
+   Merging is PenProofs.copy_entry per attribute, which C19_copy proves to be what
+   tickit_pen_copy does to the maps; equivalence is equality of the defaulted reads, which
+   C19_equiv_iff proves to be tickit_pen_equiv (RBPenBridge.v states both for the C19 model). *)
 
-Record pen := mkPen { p_fg : option Z; p_bg : option Z; p_b : option Z; p_u : option Z }.
-Definition pen_empty : pen := mkPen None None None None.
+Notation pvalue := PenSpec.value.
+Notation pattr := PenDefs.attr.
 
-(* tickit_pen_get_*_attr: value or the type's default when the attribute is absent *)
-Definition attr_get (dflt : Z) (a : option Z) : Z := match a with Some v => v | None => dflt end.
-(* tickit_pen_equiv_attr compares the *got* values *)
-Definition attr_equiv (dflt : Z) (a b : option Z) : bool := attr_get dflt a =? attr_get dflt b.
+Record pen := mkPen {
+  p_fg : option pvalue; p_bg : option pvalue; p_bold : option pvalue; p_under : option pvalue;
+  p_italic : option pvalue; p_reverse : option pvalue; p_strike : option pvalue;
+  p_altfont : option pvalue; p_blink : option pvalue; p_sizepos : option pvalue }.
+Definition pen_empty : pen := mkPen None None None None None None None None None None.
 
-Definition DFLT_COLOUR : Z := -1.
-Definition DFLT_BOOL : Z := 0.
-Definition DFLT_INT : Z := 0.
-
-Definition pen_equiv (a b : pen) : bool :=
-  attr_equiv DFLT_COLOUR (p_fg a) (p_fg b) && attr_equiv DFLT_COLOUR (p_bg a) (p_bg b) &&
-  attr_equiv DFLT_BOOL (p_b a) (p_b b) && attr_equiv DFLT_INT (p_u a) (p_u b).
-
-(* one attribute of tickit_pen_copy(dst, src, overwrite) *)
-Definition attr_copy (dflt : Z) (dst src : option Z) (overwrite : bool) : option Z :=
-  match src with
-  | None => dst                                               (* !has_attr(src): continue *)
-  | Some _ =>
-      match dst with
-      | Some _ => if negb overwrite || attr_equiv dflt src dst then dst else src
-      | None => src
-      end
+Definition pget (p : pen) (a : pattr) : option pvalue :=
+  match a with
+  | PenDefs.FG => p_fg p | PenDefs.BG => p_bg p | PenDefs.BOLD => p_bold p | PenDefs.UNDER => p_under p
+  | PenDefs.ITALIC => p_italic p | PenDefs.REVERSE => p_reverse p | PenDefs.STRIKE => p_strike p
+  | PenDefs.ALTFONT => p_altfont p | PenDefs.BLINK => p_blink p | PenDefs.SIZEPOS => p_sizepos p
+  | PenDefs.AOther => None
   end.
 
-Definition pen_copy (dst src : pen) (overwrite : bool) : pen :=
-  mkPen (attr_copy DFLT_COLOUR (p_fg dst) (p_fg src) overwrite)
-        (attr_copy DFLT_COLOUR (p_bg dst) (p_bg src) overwrite)
-        (attr_copy DFLT_BOOL (p_b dst) (p_b src) overwrite)
-        (attr_copy DFLT_INT (p_u dst) (p_u src) overwrite).
+Definition pen_build (f : pattr -> option pvalue) : pen :=
+  mkPen (f PenDefs.FG) (f PenDefs.BG) (f PenDefs.BOLD) (f PenDefs.UNDER) (f PenDefs.ITALIC) (f PenDefs.REVERSE)
+        (f PenDefs.STRIKE) (f PenDefs.ALTFONT) (f PenDefs.BLINK) (f PenDefs.SIZEPOS).
 
-Definition oz_eqb (a b : option Z) : bool :=
-  match a, b with Some x, Some y => x =? y | None, None => true | _, _ => false end.
+(* tickit_pen_get_*_attr: value or the type's default when the attribute is absent *)
+Definition preads (p : pen) (a : pattr) : pvalue :=
+  match pget p a with Some v => v | None => PenSpec.default_of a end.
+
+(* tickit_pen_equiv *)
+Definition pen_equiv (a b : pen) : bool :=
+  forallb (fun at_ => PenSpec.value_eqb (preads a at_) (preads b at_)) PenDefs.all_attrs.
+
+(* tickit_pen_copy(dst, src, overwrite) *)
+Definition pen_copy (dst src : pen) (overwrite : bool) : pen :=
+  pen_build (fun a => PenProofs.copy_entry (pget dst a) (pget src a) overwrite).
+
+Definition ovalue_eqb (a b : option pvalue) : bool :=
+  match a, b with Some x, Some y => PenSpec.value_eqb x y | None, None => true | _, _ => false end.
 Definition pen_eqb (a b : pen) : bool :=
-  oz_eqb (p_fg a) (p_fg b) && oz_eqb (p_bg a) (p_bg b) && oz_eqb (p_b a) (p_b b) && oz_eqb (p_u a) (p_u b).
+  forallb (fun at_ => ovalue_eqb (pget a at_) (pget b at_)) PenDefs.all_attrs.
+
+(* a pen with only a foreground index colour *)
+Definition pen_fg (i : Z) : pen :=
+  mkPen (Some (PenSpec.VCol i None)) None None None None None None None None None.
 
 (* ---------------------------------------------------------------------------------- *)
-(* text: code points and their column width (unicode.h tickit_utf8_wcwidth restricted to the
-   classes used by the generators; anything else is treated like a control character, i.e.
-   the string is invalid -- the harness never feeds such code points) *)
+(* text: code points and their column width.  The width is the library's own
+   tickit_utf8_wcwidth as modelled and specified by property C07 (Utf8Spec.spec_width:
+   membership in the width tables re-translated from src/unicode.h and src/fullwidth.inc on
+   every run; C07_wcwidth_is_membership proves it equal to the model of the C function).  A
+   string is invalid -- tickit_utf8_ncount returns -1 -- when it contains a C0/C1 control or
+   DEL (Utf8Spec.bad_cp).  Texts are lists of code points 1..0x1FFFFF, i.e. what UTF-8 of one
+   to four bytes encodes; RBUtf8Bridge.v proves that counting over such a list is C07's
+   tickit_utf8_ncountmore on its encoding. *)
 
 Definition cpw (c : Z) : Z :=
-  if (0x20 <=? c) && (c <=? 0x7e) then 1          (* printable ASCII *)
-  else if (0xa1 <=? c) && (c <=? 0xff) then 1     (* Latin-1 (two UTF-8 bytes) *)
-  else if (0x300 <=? c) && (c <=? 0x36f) then 0   (* combining diacriticals *)
-  else if (0x2500 <=? c) && (c <=? 0x257f) then 1 (* box drawing (line glyphs) *)
-  else if (0xff01 <=? c) && (c <=? 0xff60) then 2 (* fullwidth forms *)
-  else -1.
+  if (c <=? 0) || (0x200000 <=? c) || Utf8Spec.bad_cp c then -1 else Utf8Spec.spec_width c.
 
 (* TickitStringPos restricted to what renderbuffer.c uses: code points consumed (stands for
    .bytes/.codepoints), graphemes, columns *)
